@@ -159,3 +159,14 @@ func GCUniverses() []*Universe {
 	}
 	return out
 }
+
+// WideLowDeleted: a uint8 tree whose root is a 256-way node from which the lowest children were deleted.
+func WideLowDeleted() *Universe {
+	ops := intOps[uint8](func(k uint8) []byte { _, b := art.UnsignedBinaryKey[uint8]{}.Transform(k); return b })
+	var setup []uint8
+	for i := 0; i < 60; i++ {
+		setup = append(setup, uint8(i*4))
+	}
+	return NewNumUniverse("unsigned", "uint8", func() art.Tree[uint8, int] { return art.NewUnsignedBinaryTree[uint8, int]() },
+		NumSpec[uint8]{Name: "S-WIDE", Setup: setup, SetupDel: []uint8{0, 4, 8}, Free: []uint8{12, 236}, Probes: []uint8{0}}, ops)
+}
